@@ -1011,6 +1011,7 @@ var invalidAnywhere = []string{
 	"f()++;", "f()--;", "++f();", "--f();", "f()=1;", "f()+=1;", "for(f() in o);", "(a,b)=1;", "(a+b)++;", "x++ ++;", "++x++;", "new f()++;", "new f=1;", "a.b()++;", "(a?b:c)=1;", "typeof x=1;", "-x=1;", "x++=1;", "'s'=1;", "null=1;", "true++;", "[a]=1;", "({a:1})=1;", "(function(){})++;", "delete x=1;", "void 0=1;", "a||b=1;", "for(a+b in o);", "for(1 in o);", "for(var a,b in o);",
 	"x=/(?</g;", "x=/\\/;", "x=/[\\\n]/;", "x=/a\\\n/;", "x=/[a\\\r\n]/;", "x=/[\\\u2028]/;",
 	"x=0in[];", "0in[];", "x=0instanceof Object;", "x=0a;", "x=0$;", "x=0_;", "x=7in[];", "x=10in[];", "x=0.in[];", "x=0.5in[];", "x=.5in[];", "x=1.in[];", "x=1e3a;", "x=1E-2in[];", "x=0x1Fin[];", "x=0X0in[];", "x=0x1g;", "x=7instanceof Object;", "x=7$;", "x=1._;", "for(var k=0in{};;);",
+	"\\u0031abc=1;", "var \\u0031a;", "x=\\u0030;", "\\u002Dx;", "a\\u002Db=1;", "a\\u0020b;", "x.\\u0031a;", "({\\u0031a:1});", "function \\u0039f(){}", "function f(\\u0031p){}", "L\\u003A:;", "\\u0031:;",
 	"x=1e3in{};", "x=.5E-2instanceof Object;", "x=0e0in[];", "x=3in[];", "x=01a;", "x=0x3in[];", "x=1.5a;", "x=1.e;",
 	"a:if(1){while(1){continue a;}}", "a:{b:for(;;){continue a;}}", "function g(){a:switch(1){case 1:for(;;){continue a}}}",
 	"a:{continue a;}", "a:switch(1){case 1:continue a;}", "for(;;){(function(){continue;})()}", "while(1){(function(){break;})()}",
